@@ -31,6 +31,9 @@ ApplyEdit(m, e) == IF e.k = "cell" THEN (IF e.c <= 31 THEN SetCellType(m, e.c, e
 RECURSIVE Afters(_, _)
 Afters(m, es) == IF es = <<>> THEN <<>> ELSE LET m2 == ApplyEdit(m, Head(es)) IN << Encode(m2) >> \o Afters(m2, Tail(es))
 EditPool == << Cell(21, 33, 1), Cell(0, 0, 0), Cell(31, 63, 1), Cell(32, 1, 1), Cell(9999, 2, 0), Lava(1, 0, 0), Lava(0, 32, 1), Ver(4200), Ver(4112), TrimE >>
+\* a map whose tileset sources have unused slots (empty name, or zero tiles) in front of and between several used ones
+TrimMap == [MakeMap(6, 2, 0, 2, 1, 1, 5) EXCEPT !.sources = << [name |-> <<>>, n |-> <<0,0,0,0>>], [name |-> <<119,49>>, n |-> <<9,0,0,0>>], [name |-> <<119,50>>, n |-> <<1,0,0,0>>],
+                                                                [name |-> <<120>>, n |-> <<0,0,0,0>>], [name |-> <<119,51>>, n |-> <<2,0,0,0>>], [name |-> <<>>, n |-> <<0,0,0,0>>], [name |-> <<119,52>>, n |-> <<7,0,0,0>>] >>]
 Edits(m, es) == [op |-> "map_edits", input |-> Encode(m), edits |-> es, refused |-> [i \in 1..Len(es) |-> es[i].k = "cell" /\ es[i].c > 31], after |-> Afters(m, es)]
 \* C16: addressing probes and field extraction
 Probe(lg, h) == LET w == Pow2(lg) IN
@@ -52,6 +55,7 @@ Next == /\ ~done /\ done' = TRUE
         /\ Emit(<<"rt10">>, << RoundTrip(MakeMap(10, 1, 1, 1, 0, 0, 4), <<1,0,0,0>>, <<0,0,0,0>>, <<>>) >>)
         /\ \A n \in 1..(IF Tier = "thorough" THEN 3 ELSE 2) : \A ix \in Seqs(1..Len(EditPool), n) :
              Emit(<<"ed", ix>>, << Edits(MakeMap(6, 2, 3, 2, 1, 1, 5), [i \in 1..n |-> EditPool[ix[i]]]) >>)
+        /\ \A pre \in {<<>>, << Cell(3, 1, 1) >>, << Lava(1, 33, 0) >>} : Emit(<<"trim", pre>>, << Edits(TrimMap, pre \o << TrimE, TrimE, Ver(4115) >>) >>)
         /\ \A lg \in 5..10 : \A h \in ProbeHeights : Emit(<<"probe", lg, h>>, << Probe(lg, h) >>)
         /\ \A ub \in { UnitBlock(0, 0, 0, 0, 0, 0), UnitBlock(3, 5, 5, 120, 1, 2), UnitBlock(3, 5, 6, 120, 0, 3), UnitBlock(0, 1, 2, 77, 2, 0) } :
              Emit(<<"save", ub[1].v>>, << SaveCase(MakeMap(5, 2, 2, 2, 1, 0, 3), ub) >>)
